@@ -58,11 +58,16 @@ def run(ctx, b, broken):
     L = 4 if ctx.tier == "quick" else 5
     ctx.notes["rule"] = f"all strings up to length {L} over a {len(set(ALPHA))}-character alphabet of digits, hex letters, suffix letters, '.', exponent/sign characters, quotes, backslash and prefix letters; random longer literals from the C99 6.4.4/6.4.5 grammar with random suffixes and single-edit corruptions; non-trivial = a string on which some rule consumed >= 2 characters or an error rule fired; distinct by text"
     cases = ["".join(t) for n in range(1, L + 1) for t in itertools.product(sorted(set(ALPHA)), repeat=n)]
+    # characters that Python's \d, \w, \s accept but C does not take as digits, letters or blanks
+    ODD = ["\u0663", "\uff13", "\u00b2", "\u00e9", "\u00a0", "\u2003", "\u0967"]
+    cases += ["1\u0663", "\u0663", "\u0663.\u0665", "1e\u0663", "0x1p\uff13", "1.\u0663", "0\u0663", "'\u0663'", "\"\u0663\"", "1\u0663u", "0x\uff11", "0b\uff11", "1.5e+\u0967",
+              "\uff11.5", "1\u00a0", "1\u00b2", "0\uff17", "1.\uff10f", "'\\\u0663'", "L'\u0663'", "u8\"\u0663\""]
     for _ in range(5000 if ctx.tier == "quick" else 100000):
         s, _c = ctx.rng.choice([gen_int, gen_float, gen_charconst, gen_string])(ctx.rng)
         if ctx.rng.random() < 0.5 and s:
             i = ctx.rng.randrange(len(s))
-            s = ctx.rng.choice([s[:i] + s[i + 1:], s[:i] + ctx.rng.choice(ALPHA) + s[i:], s[:i] + ctx.rng.choice(ALPHA) + s[i + 1:]])
+            ch = ctx.rng.choice(ALPHA) if ctx.rng.random() < 0.93 else ctx.rng.choice(ODD)
+            s = ctx.rng.choice([s[:i] + s[i + 1:], s[:i] + ch + s[i:], s[:i] + ch + s[i + 1:]])
         cases.append(s)
     outs = model.batch([Model.enc(1, "f.c", s) for s in cases]) if model else [None] * len(cases)
     mouts = model.batch([Model.enc(2, s) for s in cases]) if model else [None] * len(cases)
@@ -98,6 +103,12 @@ def run(ctx, b, broken):
                     bad = f"bad octal constant {s!r} is not reported through the error callback"
             if s.startswith("''") and not errs:
                 bad = f"empty character constant in {s!r} is not reported"
+        if bad and got is not None and want is None and re.search(r"\\[^\x00-\x7f]", s) and any(ch.isdigit() and ord(ch) > 127 for ch in s):
+            # the listed finding C10-unicode-digit-escape (an escape made of a backslash and a non-ASCII digit), in another literal
+            kf = [f for f in ctx.findings if f["id"] == "C10-unicode-digit-escape"]
+            if kf:
+                ctx.known(kf[0]["id"], kf[0]["what"])
+                bad = None
         if bad and nviol < 8:
             nviol += 1
             ctx.violation({"property": "C10", "input": s, "problem": bad, "observed": io[:300]})
